@@ -3,6 +3,7 @@ CONSTANTS
   MaxOps = 14
   Groups = {"list", "listns", "tree", "arr", "mat", "ds"}
   Big = TRUE
+  Focus = ""
   Wide = FALSE
   ShipDsAdd = FALSE
   ShipMatPartial = FALSE
